@@ -406,6 +406,7 @@ func runClientMap(res *vlib.Result, root *vlib.Rand) {
 			}()
 		}
 		wg.Wait()
+		res.Save()
 	}
 	res.Obs("clientmap_idle_trials", int64(st.idle))
 	res.Obs("clientmap_contents_trials", int64(st.cont))
